@@ -75,6 +75,7 @@ def run(ctx):
     _effects(r, p, rt, fx)
     _gating(r, p, cg, rt)
     literal_guard(r, p, "C03.literal")
+    _layout_predicate(r, p, "C03.effect")
     _caseid(r, p)
     # the per-rule effect classes above describe what a fix does to the tokens it *selected*; that attribution is only
     # meaningful if the selection is made on a fresh index (shared with C18.remap): a stale index makes a case rule
@@ -88,6 +89,26 @@ def run(ctx):
     if not scratch.findings:
         r.ok("C03.effect", "index-freshness", "every fix that can shift token positions is followed by an index rebuild (remap), so later rules select the tokens they name")
     return r
+
+
+def _layout_predicate(r, p, rule_id):
+    """The blank-line rules (phase 3) delete whole regions delimited with the token map's plain whitespace predicate
+    (get_index_of_previous_non_whitespace_token_before_index -> get_all_blank_lines_above_indexes).  Those regions hold
+    only layout because that predicate accepts exactly whitespace, carriage_return and blank_line; one more class makes a
+    vertical-spacing rule delete text of that class."""
+    from .c05 import WS, _pred_classes
+
+    fi = p.function("vsg.token_map:New.is_token_at_index_whitespace")
+    got = _pred_classes(p, fi)
+    user = p.function("vsg.token_map:New.get_index_of_previous_non_whitespace_token_before_index")
+    if not any(isinstance(n, ast.Call) and norm(n.func).endswith("is_token_at_index_whitespace") for n in walk_function(user.node)):
+        r.fail(rule_id, user.key + ":predicate", "the backward search that delimits blank-line regions no longer uses the plain whitespace predicate", user.loc())
+    if got == WS:
+        r.ok(rule_id, fi.key + ":layout-only", "the predicate that delimits blank-line regions accepts exactly whitespace, carriage_return, blank_line")
+    else:
+        extra = sorted(got - WS)
+        miss = sorted(WS - got)
+        r.fail(rule_id, fi.key + ":layout-only", "the token map's plain whitespace predicate accepts %s%s: regions that blank-line rules delete (set_tokens([])) or truncate are delimited with it, so a phase-3 rule would delete %s" % (sorted(got), (" and misses %s" % miss) if miss else "", ", ".join(x.split(":")[-1] + " tokens" for x in extra) or "the wrong lines"), fi.loc())
 
 
 def _caseid(r, p):
@@ -579,6 +600,8 @@ def _const_strs(a):
 
 
 VARIANTS = [
+    Variant("C03", "token map treats preprocessor lines as whitespace", "fire",
+            [("vsg/token_map.py", "        if self.is_token_at_index(parser.blank_line, iIndex):\n            return True\n        return False\n\n    def is_token_at_index_whitespace_or_comment", "        if self.is_token_at_index(parser.blank_line, iIndex):\n            return True\n        if self.is_token_at_index(parser.preprocessor, iIndex):\n            return True\n        return False\n\n    def is_token_at_index_whitespace_or_comment")], rule="C03.effect", key="layout-only"),
     Variant("C03", "interface case rule maps by the stripped name", "fire",
             [("vsg/rules/consistent_interface_token_case.py", "        dInterfaceMap[sInterfaceName.lower()] = sInterfaceName\n", "        dInterfaceMap[sInterfaceName.lower()] = sInterfaceName.strip(\"_\")\n")], rule="C03.caseid"),
     Variant("C03", "consistent case rule accepts a prefix match", "fire",
